@@ -13,7 +13,10 @@ mkdir -p .build/benign
 res=""
 for p in $checks; do
   ./check $p --tier quick > .build/benign/$name-$p.log 2>&1; code=$?
-  if [ $code -ne 0 ]; then
+  exp="$(dirname "$patch")/expected_alarms.txt"
+  if [ $code -ne 0 ] && [ -f "$exp" ] && grep -q "^$p " "$exp"; then
+    echo "EXPECTED-ALARM $name $p exit=$code ($(grep "^$p " "$exp" | cut -d' ' -f2-)) $(grep -m1 -E 'rule=' .build/benign/$name-$p.log | sed 's/^ *//' | cut -c1-160)"
+  elif [ $code -ne 0 ]; then
     echo "ALARM $name $p exit=$code $(grep -m1 -E 'rule=|MACHINERY' .build/benign/$name-$p.log | sed 's/^ *//' | cut -c1-200)"
   fi
   res="$res $p:$code"
